@@ -112,3 +112,224 @@ theorem fsl_slice2_good (s : Slice FileR) (hs : sliceGood RSpec.Inv id s) (a b :
     congr 1; omega
 
 end Op2.Stream
+
+namespace Op2.Stream
+
+theorem inv_rewind (f : RSpec) (h : f.Inv) : RSpec.Inv { f with pos := 0 } := ⟨Nat.zero_le _, h.2⟩
+
+/-- **derivations**: from a well-formed object, with 64-bit arguments, a successful `Slice(start,len)`, `Slice(len)` or
+    copy yields a well-formed new object exposing a contiguous window of the bytes the parent exposes, and leaves the
+    parent well-formed -/
+theorem Rd.derive_good (r : Rd) (d : DOp) (hr : r.Good) (hd : d.argOk) (n r' : Rd) (h : r.derive d = some (.ok (n, r'))) :
+    n.Good ∧ r'.Good ∧ IsWindow n.content r.content := by
+  cases d with
+  | slice a b =>
+    obtain ⟨ha, hb⟩ := hd
+    cases r with
+    | mem m =>
+      simp only [Rd.derive, Option.some.injEq] at h
+      cases hm : MemR.slice2 m a b with
+      | error e => rw [hm] at h; cases h
+      | ok x =>
+        rw [hm] at h; cases h
+        obtain ⟨g, w⟩ := mem_slice2_good m hr a b x hm
+        exact ⟨g, hr, w⟩
+    | file f =>
+      simp only [Rd.derive, Option.some.injEq] at h
+      cases hm : Slice.create fileWrapped { f with pos := 0 } a b with
+      | error e => rw [hm] at h; cases h
+      | ok x =>
+        rw [hm] at h; cases h
+        obtain ⟨g, w⟩ := create_ok_good fileWrappedOK _ (inv_rewind f hr) a b ha hb x hm
+        refine ⟨g, hr, a, b, ?_⟩
+        rw [fsl_content_abs, w]; rfl
+    | fsl s =>
+      simp only [Rd.derive, Option.some.injEq] at h
+      cases hm : Slice.slice2 fileWrapped s a b with
+      | error e => rw [hm] at h; cases h
+      | ok x =>
+        rw [hm] at h; cases h
+        obtain ⟨g, w⟩ := fsl_slice2_good s hr a b ha hb x hm
+        exact ⟨g, hr, w⟩
+    | fss s => simp [Rd.derive] at h
+  | here a =>
+    have ha : a < W64 := hd
+    cases r with
+    | mem m =>
+      simp only [Rd.derive, Option.some.injEq] at h
+      cases hm : MemR.slice1 m a with
+      | error e => rw [hm] at h; cases h
+      | ok x =>
+        rw [hm] at h; cases h
+        unfold MemR.slice1 at hm
+        split at hm
+        · cases hm
+        · rename_i sl hsl
+          split at hm
+          · cases hm
+          · rename_i s' hf
+            cases hm
+            obtain ⟨g, w⟩ := mem_slice2_good m hr m.pos a sl hsl
+            exact ⟨g, mem_fwd_good m hr a ha s' hf, w⟩
+    | file f =>
+      simp only [Rd.derive, Option.some.injEq] at h
+      split at h
+      · cases h
+      · rename_i x hx
+        split at h
+        · cases h
+        · rename_i f' hf
+          cases h
+          have hp : f.pos < W64 := by obtain ⟨h1, h2⟩ := hr; omega
+          obtain ⟨g, w⟩ := create_ok_good fileWrappedOK _ (inv_rewind f hr) f.pos a hp ha x hx
+          have hfit : f.pos + a ≤ f.data.length := by
+            rcases Nat.lt_or_ge f.data.length (f.pos + a) with hlt | hle
+            · rw [slice_create_err fileWrappedOK _ (inv_rewind f hr) f.pos a hp ha (by simp only [id]; omega)] at hx; cases hx
+            · exact hle
+          refine ⟨g, ?_, f.pos, a, ?_⟩
+          · simp only [FileR.fwd] at hf
+            split at hf
+            · cases hf
+            · cases hf
+              obtain ⟨h1, h2⟩ := hr
+              have : u64 (f.pos + a) = f.pos + a := by unfold u64 W64 at *; omega
+              exact ⟨by simp only [this]; exact hfit, h2⟩
+          · rw [fsl_content_abs, w]; rfl
+    | fsl s =>
+      simp only [Rd.derive, Option.some.injEq] at h
+      cases hm : Slice.slice1 fileWrapped s a with
+      | error e => rw [hm] at h; cases h
+      | ok x =>
+        rw [hm] at h; cases h
+        unfold Slice.slice1 at hm
+        split at hm
+        · cases hm
+        · rename_i sl hsl
+          split at hm
+          · cases hm
+          · rename_i s' hf
+            cases hm
+            have hp : Slice.position fileWrapped s < W64 := by
+              unfold Slice.position u64; exact Nat.mod_lt _ (by unfold W64; omega)
+            obtain ⟨g, w⟩ := fsl_slice2_good s hr _ a hp ha sl hsl
+            exact ⟨g, fsl_fwd_good s hr a ha s' hf, w⟩
+    | fss s => simp [Rd.derive] at h
+  | copy =>
+    cases r with
+    | mem m => simp only [Rd.derive, Option.some.injEq] at h; cases h; exact ⟨hr, hr, IsWindow.refl _⟩
+    | file f =>
+      simp only [Rd.derive, Option.some.injEq] at h; cases h
+      exact ⟨inv_rewind f hr, hr, IsWindow.refl _⟩
+    | fsl s =>
+      simp only [Rd.derive, Option.some.injEq] at h
+      cases hm : Slice.create fileWrapped s.w s.start s.len with
+      | error e => rw [hm] at h; cases h
+      | ok x =>
+        rw [hm] at h; cases h
+        obtain ⟨hg, g1, g2, g3⟩ := hr
+        obtain ⟨_, hi2⟩ := fileWrappedOK.inv s.w hg
+        simp only [id] at g1 hi2
+        obtain ⟨g, w⟩ := create_ok_good fileWrappedOK s.w hg s.start s.len (by omega) (by omega) x hm
+        refine ⟨g, ⟨hg, g1, g2, g3⟩, 0, s.len, ?_⟩
+        rw [fsl_content_abs, w]
+        simp only [id, Rd.content, List.drop_zero]
+        rw [List.take_take, Nat.min_self]
+    | fss s => simp [Rd.derive] at h
+
+end Op2.Stream
+
+namespace Op2.Stream
+
+/-- every object is well-formed and exposes a contiguous window of `root` -/
+def Sys.Rooted (root : Bytes) (objs : Sys) : Prop := ∀ r ∈ objs, r.Good ∧ IsWindow r.content root
+
+theorem Rd.ostep_rooted (root : Bytes) (r : Rd) (o : OOp) (hr : r.Good ∧ IsWindow r.content root) (ho : o.argOk) :
+    ((r.ostep o).2.Good ∧ IsWindow (r.ostep o).2.content root) ∧
+    ∀ n, (r.ostep o).1 = .made n → n.Good ∧ IsWindow n.content root := by
+  obtain ⟨hg, hw⟩ := hr
+  cases o with
+  | op x =>
+    refine ⟨⟨Rd.step_good r x hg ho, ?_⟩, ?_⟩
+    · rw [show (r.ostep (.op x)).2 = (r.step x).2 from rfl, Rd.step_content]; exact hw
+    · intro n hn; simp [Rd.ostep] at hn
+  | derive d =>
+    simp only [Rd.ostep]
+    cases hd : r.derive d with
+    | none => exact ⟨⟨hg, hw⟩, by intro n hn; cases hn⟩
+    | some e =>
+      cases e with
+      | error e => exact ⟨⟨hg, hw⟩, by intro n hn; cases hn⟩
+      | ok p =>
+        obtain ⟨n, r'⟩ := p
+        obtain ⟨gn, gr, wn⟩ := Rd.derive_good r d hg ho n r' hd
+        refine ⟨⟨gr, ?_⟩, ?_⟩
+        · rw [Rd.derive_content r d n r' hd]; exact hw
+        · intro m hm
+          simp only [OOut.made.injEq] at hm
+          subst hm
+          exact ⟨gn, wn.trans hw⟩
+
+theorem Sys.step_rooted (root : Bytes) (objs : Sys) (i : Nat) (o : OOp) (h : Sys.Rooted root objs) (ho : o.argOk) :
+    Sys.Rooted root (Sys.step objs i o).2 := by
+  unfold Sys.step
+  cases hi : objs[i]? with
+  | none => exact h
+  | some r =>
+    have hr : r ∈ objs := List.mem_of_getElem? hi
+    obtain ⟨h1, h2⟩ := Rd.ostep_rooted root r o (h r hr) ho
+    simp only
+    cases hx : (r.ostep o).1 with
+    | made n =>
+      simp only
+      intro q hq
+      rcases List.mem_append.mp hq with hq | hq
+      · rcases List.mem_or_eq_of_mem_set hq with hq | hq
+        · exact h q hq
+        · subst hq; exact h1
+      · simp only [List.mem_singleton] at hq
+        rw [hq]; exact h2 n hx
+    | out y =>
+      simp only
+      intro q hq
+      rcases List.mem_or_eq_of_mem_set hq with hq | hq
+      · exact h q hq
+      · subst hq; exact h1
+    | failed =>
+      simp only
+      intro q hq
+      rcases List.mem_or_eq_of_mem_set hq with hq | hq
+      · exact h q hq
+      · subst hq; exact h1
+    | unsupported =>
+      simp only
+      intro q hq
+      rcases List.mem_or_eq_of_mem_set hq with hq | hq
+      · exact h q hq
+      · subst hq; exact h1
+
+/-- **every reachable system**: whatever interleaved history of requests with 64-bit arguments runs — reads and seeks in and
+    out of bounds, slices of slices to any depth, copies, slices at the cursor — every object alive afterwards satisfies
+    its class invariant and exposes a contiguous window of the root's bytes, nothing else -/
+theorem Sys.run_rooted (root : Bytes) (h : List (Nat × OOp)) : ∀ objs : Sys, Sys.Rooted root objs → (∀ p ∈ h, p.2.argOk) →
+    Sys.Rooted root (Sys.run objs h).2 := by
+  induction h with
+  | nil => intro objs hr _; exact hr
+  | cons p h ih =>
+    intro objs hr ha
+    simp only [Sys.run]
+    exact ih _ (Sys.step_rooted root objs p.1 p.2 hr (ha p (List.mem_cons_self ..)))
+      (fun q hq => ha q (List.mem_cons_of_mem _ hq))
+
+theorem Sys.rooted_init_mem (data : Bytes) (hd : data.length < W64) : Sys.Rooted data [Rd.mem { data := data, pos := 0 }] := by
+  intro r hr
+  simp only [List.mem_singleton] at hr
+  subst hr
+  exact ⟨⟨Nat.zero_le _, hd⟩, IsWindow.refl _⟩
+
+theorem Sys.rooted_init_file (data : Bytes) (hd : data.length < W64) : Sys.Rooted data [Rd.file { data := data, pos := 0 }] := by
+  intro r hr
+  simp only [List.mem_singleton] at hr
+  subst hr
+  exact ⟨⟨Nat.zero_le _, hd⟩, IsWindow.refl _⟩
+
+end Op2.Stream
